@@ -14,10 +14,12 @@ open AsyncFix.Session AsyncFix.Generated AsyncFix.Generated.ConnEnum
 
 variable {α β : Type} {i : Bool}
 
-def noRewind (g : List Ghost) : Bool := !g.contains .rewind
+def noRewind (g : List Ghost) : Bool := !g.contains .rewind && !g.contains .waive
 
 theorem noRewind_append (a b : List Ghost) : noRewind (a ++ b) = (noRewind a && noRewind b) := by
-  simp [noRewind, List.contains_eq_mem, Bool.not_or]
+  simp only [noRewind, List.contains_eq_mem, List.mem_append, Bool.decide_or, Bool.not_or]
+  cases decide (Ghost.rewind ∈ a) <;> cases decide (Ghost.rewind ∈ b) <;> cases decide (Ghost.waive ∈ a) <;>
+    cases decide (Ghost.waive ∈ b) <;> rfl
 
 def Ok (i : Bool) : Conn → Res α → Prop
   | c0, .done c e g r => noRewind g = true → J c0 → Seg i c0 c (e ++ pend r)
@@ -82,6 +84,59 @@ theorem Ok.swallow {c0 : Conn} {r : Res α} (d : α) (h : Ok false c0 r) :
   | yield c e g pt k ih =>
     exact ⟨fun hg hJ => (h.1 hg hJ).weaken i, fun hg c1 => ih c1 (h.2 hg c1)⟩
 
+/-- a benign pending exception can be taken off the end of a segment -/
+theorem Seg.drop_raised {c c' : Conn} {e : List Effect} {ex : Exc} (h : Seg i c c' (e ++ [.raised ex]))
+    (hb : (ex != .duplicateSeqNo && ex != .attribute) = true) : Seg i c c' e := by
+  have hw : writes (e ++ [.raised ex]) = writes e := by simp [writes_append, writes]
+  have hl : lost (e ++ [.raised ex]) = lost e := by
+    simp only [lost_append]; cases ex <;> simp_all [lost]
+  have hd : dupErr i e = false := by
+    have := h.nodup
+    rw [dupErr_append] at this
+    cases hde : dupErr i e <;> simp_all
+  exact ⟨h.inv, by simpa [newWrites, hw] using h.asc, by simpa [newWrites, hw, hl] using h.cnt,
+    by simpa [hw] using h.allNew, h.keep, by simpa [newWrites, hw] using h.fresh, hd⟩
+
+/-- a result whose first ghost list carries `waive`, behind any prefix: nothing is claimed -/
+theorem Ok.waived {c0 : Conn} (e : List Effect) (g : List Ghost) (r : Res α) :
+    Ok i c0 ((r.prepend [] [.waive]).prepend e g) := by
+  cases r with
+  | done c' e' g' r' =>
+    intro hg
+    simp only [noRewind_append, Bool.and_eq_true] at hg
+    have := hg.2.1
+    simp [noRewind] at this
+  | yield c' e' g' pt k =>
+    refine ⟨fun hg => ?_, fun hg => ?_⟩ <;>
+    · simp only [noRewind_append, Bool.and_eq_true] at hg
+      have := hg.2.1
+      simp [noRewind] at this
+
+/-- `try: x except Exception as ex: hnd ex` where the handler is fine for benign exceptions and waives the
+claims (ghost mark first) for the others -/
+theorem Ok.tryCatch_waive {c0 : Conn} {r : Res α} {hnd : Exc → Conn → Res α} (h : Ok i c0 r)
+    (hb : ∀ ex c, (ex != .duplicateSeqNo && ex != .attribute) = true → Ok i c (hnd ex c))
+    (hw : ∀ ex c, (ex != .duplicateSeqNo && ex != .attribute) = false →
+      ∃ r' : Res α, hnd ex c = r'.prepend [] [.waive]) :
+    Ok i c0 (r.tryCatch hnd) := by
+  induction r generalizing c0 with
+  | done c e g r =>
+    cases r with
+    | ok a => exact h
+    | error ex =>
+      show Ok i c0 ((hnd ex c).prepend e g)
+      cases hben : (ex != .duplicateSeqNo && ex != .attribute) with
+      | true =>
+        refine Ok.prepend (c := c) ?_ (hb ex c hben)
+        intro hg hJ
+        exact (h hg hJ).drop_raised hben
+      | false =>
+        obtain ⟨r', hr'⟩ := hw ex c hben
+        rw [hr']
+        exact Ok.waived e g r'
+  | yield c e g pt k ih =>
+    exact ⟨h.1, fun hg c1 => ih c1 (h.2 hg c1)⟩
+
 namespace ROk
 
 theorem weaken {x : R α} (h : ROk false x) : ROk i x := ⟨fun c => (h.out c).weaken⟩
@@ -119,6 +174,16 @@ theorem rewind_bind (f : Unit → R β) : ROk i (R.ghost .rewind >>= f) := by
   | yield c' e' g' pt k =>
     exact ⟨fun hg => by simp [noRewind] at hg, fun hg => by simp [noRewind] at hg⟩
 
+/-- nothing is claimed after a `waive` mark either -/
+theorem waive_bind (f : Unit → R β) : ROk i (R.ghost .waive >>= f) := by
+  constructor
+  intro c
+  show Ok i c ((f () c).prepend [] [.waive])
+  cases f () c with
+  | done c' e' g' r' => intro hg; simp [noRewind] at hg
+  | yield c' e' g' pt k =>
+    exact ⟨fun hg => by simp [noRewind] at hg, fun hg => by simp [noRewind] at hg⟩
+
 theorem ite {p : Prop} [Decidable p] {a b : R α} (ha : ROk i a) (hb : ROk i b) :
     ROk i (if p then a else b) := by
   split <;> assumption
@@ -132,6 +197,28 @@ theorem liftE_get (m : Msg) (t : Nat) : ROk i (R.liftE (m.get t)) := liftM (MSpe
 theorem assert (b : Bool) : ROk i (R.assert b) := liftM (MSpec.assert b)
 theorem int (s : String) : ROk i (R.int s) := liftM (MSpec.int s)
 
+/-- `try: x except Exception: y; raise` (with the bookkeeping mark of `rethrowAfter`) -/
+theorem tryCatch_rethrow {x : R α} {y : R Unit} (hx : ROk i x) (hy : ROk i y) :
+    ROk i (R.tryCatch x (rethrowAfter y)) := by
+  constructor
+  intro c
+  apply Ok.tryCatch_waive (hx.out c)
+  · intro ex c1 hben
+    have hcond : (ex == .duplicateSeqNo || ex == .attribute) = false := by
+      cases ex <;> simp_all
+    have h : ROk i (rethrowAfter (α := α) y ex) := by
+      unfold rethrowAfter
+      rw [hcond]
+      exact bind hy fun _ => throw hben
+    exact h.out c1
+  · intro ex c1 hnb
+    have hcond : (ex == .duplicateSeqNo || ex == .attribute) = true := by
+      cases ex <;> simp_all
+    refine ⟨((y >>= fun _ => (R.throw ex : R α)) c1), ?_⟩
+    unfold rethrowAfter
+    rw [hcond]
+    rfl
+
 theorem swallow {x : R α} (d : α) (hx : ROk false x) : ROk i (swallowR d x) :=
   ⟨fun c => Ok.swallow d (hx.out c)⟩
 
@@ -144,7 +231,7 @@ macro_rules
     let user ← ls.getElems.mapM fun l => `(tactic| apply $l)
     let builtin ← #[``ROk.pure, ``ROk.throw, ``ROk.get, ``ROk.liftE_get, ``ROk.assert, ``ROk.int,
         ``ROk.yield, ``ROk.hook, ``ROk.modify].mapM fun n => `(tactic| apply $(mkIdent n))
-    let tail ← #[``ROk.bind, ``ROk.ite].mapM fun n => `(tactic| apply $(mkIdent n))
+    let tail ← #[``ROk.bind, ``ROk.ite, ``ROk.tryCatch_rethrow].mapM fun n => `(tactic| apply $(mkIdent n))
     let all := #[← `(tactic| intro _), ← `(tactic| rfl)] ++ builtin ++ user ++ tail ++ #[← `(tactic| split)]
     `(tactic| repeat' (first $[| $all:tactic]*))
 
